@@ -84,6 +84,10 @@ def repodata_factory(ns, via_cli=False, max_fault=120, **kw):
             keytext = None
             if via_cli:
                 keytext = t.str('keyfile', 66)
+                # a text file read with the strict UTF-8 decoder cannot yield surrogate code points
+                from pysym.models import all_chars
+                from pysym import chartab as CT
+                eng.add(all_chars(keytext, lambda c: z3.Not(CT.cp('surrogate', c))))
                 fs.files['key.hex'] = keytext
                 args = types.SimpleNamespace(repodata_fname=repo.FNAME, private_key_fname='key.hex')
                 it.fault_at = fault
@@ -301,7 +305,7 @@ def concrete(case):
         data = repo.concrete_repodata(case)
         files = {'repodata.json': data}
         if case.get('via_cli'):
-            files['key.hex'] = case['keytext'].encode('utf-8', 'surrogatepass')
+            files['key.hex'] = case['keytext'].encode('utf-8')
         if case.get('probe'):
             # ordering counterexample: find a serialisation call whose failure leaves a modified file behind
             for k in range(1, 9):
